@@ -273,7 +273,8 @@ class Graph:
                         src.relabel = call_label
                         src.discharged = lock_poison(t) or (consumed_prefix(self.facts, p, t.get('fn_sp') or sp, 'advance') if (c or '').endswith('>::advance') else None) \
                             or (bounded_amount(self.facts, p, t.get('fn_sp') or sp) if (c or '').rsplit('::', 1)[-1] in ('reserve', 'with_capacity', 'resize', 'reserve_exact') else None) \
-                            or (guarded_split(self.facts, p, t.get('fn_sp') or sp) if (c or '').rsplit('::', 1)[-1] in ('split_at', 'split_at_mut') else None)
+                            or (guarded_split(self.facts, p, t.get('fn_sp') or sp) if (c or '').rsplit('::', 1)[-1] in ('split_at', 'split_at_mut') else None) \
+                            or (guarded_index(self.facts, p, t.get('fn_sp') or sp) if (c or '').endswith('core::ops::index::Index<I>>::index') else None)
                         out.append(src)
         res = []
         for src in out:
@@ -475,30 +476,37 @@ def expr_eq(facts, a, b):
         return expr_eq(facts, a['e'], b['e'])
     return False
 
-def _cmp_facts(cond, truth, out):
-    """Comparisons known to hold when `cond` evaluates to `truth`: (l, op, r) with op in Lt Le Gt Ge Eq Ne."""
+def _cmp_facts(cond, truth, out, atoms=None):
+    """Comparisons known to hold when `cond` evaluates to `truth`: (l, op, r) with op in Lt Le Gt Ge Eq Ne.  With `atoms`, the other
+    boolean leaves whose value follows are collected too, as (expression, truth)."""
     if cond['k'] == 'Binary':
         op = cond['op']
         if op == 'And' and truth:
-            _cmp_facts(cond['l'], True, out); _cmp_facts(cond['r'], True, out)
+            _cmp_facts(cond['l'], True, out, atoms); _cmp_facts(cond['r'], True, out, atoms)
         elif op == 'Or' and not truth:
-            _cmp_facts(cond['l'], False, out); _cmp_facts(cond['r'], False, out)
+            _cmp_facts(cond['l'], False, out, atoms); _cmp_facts(cond['r'], False, out, atoms)
         elif op in ('Lt', 'Le', 'Gt', 'Ge', 'Eq', 'Ne'):
             neg = {'Lt': 'Ge', 'Le': 'Gt', 'Gt': 'Le', 'Ge': 'Lt', 'Eq': 'Ne', 'Ne': 'Eq'}
             out.append((cond['l'], op if truth else neg[op], cond['r']))
     elif cond['k'] == 'Unary' and cond.get('op') == 'Not':
-        _cmp_facts(cond['e'], not truth, out)
+        _cmp_facts(cond['e'], not truth, out, atoms)
+    elif atoms is not None and cond['k'] in ('MethodCall', 'Call'):
+        atoms.append((cond, truth))
 
-def known_comparisons(B, node):
+def known_comparisons(B, node, atoms=None):
     """Comparisons that hold whenever `node` is evaluated: enclosing if-branches and earlier early-exit guards
-    (`if c { return / break / continue / panic }` without else) in the enclosing blocks."""
+    (`if c { return / break / continue / panic }` without else) in the enclosing blocks.  With `atoms`: also the boolean calls
+    (`x.is_empty()`) whose value is fixed there, as (call node, truth)."""
     out = []
     ctx = B.context(node)
     chain = [a for a, _r in ctx] + [node]
     for i, (anc, role) in enumerate(ctx):
         child = chain[i + 1]
         if anc['k'] == 'If' and role in ('then', 'els'):
-            _cmp_facts(anc['cond'], role == 'then', out)
+            _cmp_facts(anc['cond'], role == 'then', out, atoms)
+        elif anc['k'] == 'Binary' and anc.get('op') in ('And', 'Or') and role == 'r':
+            # short circuit: the right operand of `&&` is evaluated only when the left one holds, that of `||` only when it does not
+            _cmp_facts(anc['l'], anc['op'] == 'And', out, atoms)
         elif anc['k'] == 'Block':
             for s in anc['stmts']:
                 e = s.get('e') if s['k'] in ('Expr', 'Semi') else s.get('init')
@@ -507,7 +515,7 @@ def known_comparisons(B, node):
                 if e is not None and any(x is child for x, _ in _walk(e)):
                     break
                 if s['k'] in ('Expr', 'Semi') and e['k'] == 'If' and e.get('els') is None and _hirq.diverges(e['then']):
-                    _cmp_facts(e['cond'], False, out)
+                    _cmp_facts(e['cond'], False, out, atoms)
     return out
 
 def _mutated(B, e):
@@ -798,6 +806,60 @@ def clippy_agreement(ctx, rule, G, parent, regions, srcs, sites):
     return inside
 
 
+def _mut_borrowed_between(B, x, a, b):
+    """Between the evaluation of node a and node b (pre-order), is the local at the root of x borrowed mutably (receiver of a
+    `&mut self` method such as pop / clear / truncate, or `&mut x` passed on)?  Then a fact about x established at a need not
+    hold at b."""
+    root = _hirq.root_local(_hirq.peel_refs(x))
+    lo, hi = B.order.get(id(a)), B.order.get(id(b))
+    if root is None or lo is None or hi is None or lo > hi:
+        return True
+    for n in B.nodes[lo:hi + 1]:
+        if n['k'] == 'AddrOf' and n.get('mut') and _hirq.root_local(_hirq.peel_refs(n['e'])) == root:
+            return True
+        if str(n.get('adj_ty') or '').startswith('&mut') and n['k'] in ('Path', 'Field', 'Index') and _hirq.root_local(n) == root:
+            return True
+    return False
+
+def guarded_index(facts, body_path, sp):
+    """D7: `x[k]` with a literal k on a vector / slice panics when k >= x.len(); discharged when a comparison that holds at the
+    indexing (an enclosing branch, an earlier early exit, or the left operand of the `&&` it stands in) gives x.len() > k, with x
+    not reassigned in the body."""
+    rec = hir_owner(facts, body_path)
+    if rec is None:
+        return None
+    B = _hirq.Body(facts, rec)
+    cands = [n for n in B.nodes if n['k'] == 'Index' and n.get('sp') and
+             (list(n['sp'][:5]) == list(sp[:5]) or (n['sp'][0] == sp[0] and n['sp'][3:5] == sp[3:5]))]
+    if len(cands) != 1:
+        return None
+    ix = cands[0]
+    x = ix['e']
+    k = _hirq.const_eval(facts, ix['idx'])
+    if not isinstance(k, int) or isinstance(k, bool) or k < 0 or _mutated(B, x):
+        return None
+    flip = {'Lt': 'Gt', 'Le': 'Ge', 'Gt': 'Lt', 'Ge': 'Le', 'Eq': 'Eq', 'Ne': 'Ne'}
+    def is_len_of_x(e):
+        e = _hirq.peel_refs(e)
+        return e['k'] == 'MethodCall' and e['name'] == 'len' and not e['args'] and expr_eq(facts, e['recv'], x)
+    atoms = []
+    for a, o, b in known_comparisons(B, ix, atoms):
+        for (p, oo, q) in ((a, o, b), (b, flip[o], a)):
+            if not is_len_of_x(p):
+                continue
+            m = _hirq.const_eval(facts, q)
+            if not isinstance(m, int) or isinstance(m, bool):
+                continue
+            if ((oo == 'Eq' and m > k) or (oo == 'Gt' and m >= k) or (oo == 'Ge' and m > k) or (oo == 'Ne' and m == 0 and k == 0)) \
+                    and not _mut_borrowed_between(B, x, p, ix):
+                return 'guarded: a comparison that holds at the indexing gives len > %d' % k
+    if k == 0:
+        for c, truth in atoms:
+            if not truth and c['k'] == 'MethodCall' and c['name'] == 'is_empty' and not c['args'] and expr_eq(facts, c['recv'], x) \
+                    and not _mut_borrowed_between(B, x, c, ix):
+                return 'guarded: `is_empty()` of the same vector is false at the indexing (the branch not taken by `if x.is_empty()`)'
+    return None
+
 def guarded_split(facts, body_path, sp):
     """D6: `x.split_at(n)` panics when n > x.len(); discharged when a comparison that holds at the call gives n <= x.len()
     (typically the early return of `if x.len() < n { return .. }`), with neither operand reassigned in between."""
@@ -821,4 +883,15 @@ def guarded_split(facts, body_path, sp):
         for (p, oo, q) in ((a, o, b), (b, flip[o], a)):
             if is_len_of_x(p) and expr_eq(facts, q, n) and oo in ('Ge', 'Gt', 'Eq'):
                 return 'guarded: a comparison that holds at the call gives len >= the split position'
+    # the split position is a count of elements of x itself: `x.iter().<adaptors>.count()` where every adaptor yields at most as
+    # many elements as its source (a subsequence or an element-wise image of it), so the count cannot exceed x.len()
+    SHRINKING = ('take_while', 'filter', 'skip_while', 'take', 'skip', 'map', 'filter_map', 'map_while', 'step_by', 'inspect', 'enumerate',
+                 'copied', 'cloned', 'peekable', 'fuse', 'rev')
+    e = _hirq.resolve_expr(B, n)
+    if e['k'] == 'MethodCall' and e['name'] == 'count' and not e['args'] and (e.get('callee') or '') == 'core::iter::traits::iterator::Iterator::count':
+        e = _hirq.peel_refs(e['recv'])
+        while e['k'] == 'MethodCall' and e['name'] in SHRINKING and (e.get('callee') or '').startswith('core::iter::traits::iterator::Iterator::'):
+            e = _hirq.peel_refs(e['recv'])
+        if e['k'] == 'MethodCall' and e['name'] in ('iter', 'into_iter') and not e['args'] and expr_eq(facts, e['recv'], x):
+            return 'the split position counts elements of the split slice itself (iter() through adaptors that never lengthen the sequence): it is <= len'
     return None
